@@ -130,6 +130,8 @@ def _why(direct, p):
     msg = (p.stdout or '') + (p.stderr or '')
     if 'failed to Failed to write the output file' in msg:
         return ':add-on-or-S-DAC-GT-writer-calls-sys.exit()-without-status'
+    if 'GEOPHIRES Failed to write the output file' in msg:
+        return ':report-writer-raises-after-opening-the-report'
     return ''
 
 
@@ -187,10 +189,10 @@ def run(ctx):
                               'tag': {'example': name}}})
     # failing simulations
     fails = []
-    for i in range(ctx.pick(10, 80)):
+    for i in range(ctx.pick(12, 96)):
         cell = cells[(i * 7) % len(cells)]
         base = gen.synth_case(rng, cell, addons=False, overpressure=False)
-        kind = i % 5
+        kind = i % 6
         c = [list(kv) for kv in base]
         if kind == 0:
             gen.cset(c, 'Reservoir Depth', 50)
@@ -200,12 +202,20 @@ def run(ctx):
             gen.cset(c, 'Plant Lifetime', 0)
         elif kind == 3:
             gen.cset(c, 'Utilization Factor', 1.5)
-        else:
+        elif kind == 4:
             # add-ons with two construction years: the add-on report writer aborts
             c += gen.addon_block(rng, n=1)
             gen.cset(c, 'Construction Years', 2)
+        else:
+            # impedance model + overpressure: the main report writer raises in its last table
+            gen.cdel(c, 'Injectivity Index')
+            gen.cdel(c, 'Productivity Index')
+            gen.cset(c, 'Reservoir Impedance', 0.1)
+            gen.cset(c, 'Power Plant Type', 1 if cell[1] != 2 else cell[2])
+            c += gen.overpressure_block(rng, gen.cget(c, 'Reservoir Depth'))
         fails.append((gen.render(c), {'cell': list(cell), 'failure': ['depth-out-of-range', 'non-member-option', 'lifetime-zero',
-                                                                 'utilization-above-one', 'add-ons-with-two-construction-years'][kind]}))
+                                                                 'utilization-above-one', 'add-ons-with-two-construction-years',
+                                                                 'report-writer-fails-in-overpressure-table'][kind]}))
     for i, (t, tag) in enumerate(fails):
         jobs.append({'fn': 'gxv.props.c20:entry_job', 'timeout': 900,
                      'args': {'text': t, 'mode': MODES[i % 3], 'expect_fail': True, 'tag': tag}})
